@@ -344,11 +344,15 @@ impl Timestamp {
             .duration_since(SystemTime::UNIX_EPOCH)
             .expect("system time before UNIX epoch")
             .as_micros() as u64;
+        #[cfg(feature = "verif-hooks")]
+        let micros = crate::verif::clock_micros(micros);
         // Ensure strictly monotonic: if the clock went backward or two calls
         // land in the same microsecond, we increment from the last value.
         let mut last = LAST_TIMESTAMP.load(Ordering::Relaxed);
         loop {
             let next = micros.max(last + 1);
+            #[cfg(feature = "verif-hooks")]
+            iroh_base::verif_hooks::point("pkarr.timestamp.before_cas");
             match LAST_TIMESTAMP.compare_exchange_weak(
                 last,
                 next,
